@@ -155,7 +155,7 @@ func (u *Unit) build() {
 	// global axioms
 	for _, ax := range u.eng.specs.Axioms {
 		env := &SpecEnv{u: u, st: st, old: st, names: map[string]SVal{}}
-		t, err := env.evalBool(ax.E)
+		t, err := env.evalHyp(ax.E)
 		if err != nil {
 			u.unsupportedf("axiom %q: %v", ax.Text, err)
 			continue
@@ -167,7 +167,7 @@ func (u *Unit) build() {
 	if u.spec != nil {
 		env := u.specEnvForUnit(entry, entry, nil)
 		for _, rq := range u.spec.Requires {
-			t, err := env.evalBool(rq.E)
+			t, err := env.evalHyp(rq.E)
 			if err != nil {
 				u.unsupportedf("requires %q: %v", rq.Text, err)
 				continue
@@ -203,7 +203,7 @@ func (u *Unit) build() {
 			}
 			u.reach = append(u.reach, reachCheck{fmt.Sprintf("return@%s", posString(u.eng.prog, lastPos(r.blk))), u.c.Len(), r.pc})
 			for _, en := range u.spec.Ensures {
-				t, err := env.evalBool(en.E)
+				t, err := env.evalGoal(en.E)
 				if err != nil {
 					u.unsupportedf("ensures %q: %v", en.Text, err)
 					continue
